@@ -393,6 +393,9 @@ struct FinalizeSummary {
     consensus_param_updates: String,
     committed: Dump,
     n_events: usize,
+    /// the next height, executed on the same node through the ordinary prepare / finalize / commit
+    /// path: (app hash, per-tx codes) or the error
+    followup: Result<(String, Vec<u32>), String>,
 }
 
 #[derive(Clone)]
@@ -401,6 +404,9 @@ struct Material {
     other: Proposal,
     invalid: Proposal,
     partial: Proposal,
+    /// a block for the next height, proposed by the proposer after it finalized the decided block
+    /// (None if the proposer itself cannot finalize it)
+    followup: Option<Proposal>,
 }
 
 /// The decided block is built once per block kind by a real proposer; every path receives exactly
@@ -427,11 +433,24 @@ async fn build_material(kind: &BlockKind) -> Material {
     partial.salt = 4;
     let gap_nonce = other_chain.nonce_of(&W).await + 7;
     partial.txs.push(sign_tx(&W, gap_nonce, vec![transfer(&DAVE, 5, nria().into(), nria().into())]).expect("gapped transfer"));
+    // the proposer finalizes its own block and proposes the next height
+    let storage = proposer_chain.fixture.storage();
+    let finalized = proposer_chain.fixture.app.finalize_block(decided.finalize_request(), storage.clone()).await.is_ok()
+        && proposer_chain.fixture.app.commit(storage).await.is_ok();
+    let followup = if finalized {
+        proposer_chain.next_height = decided.height + 1;
+        let eve_nonce_tx: TxList = vec![(EVE.clone(), vec![transfer(&DAVE, 1, nria().into(), nria().into())])];
+        // drop whatever the first proposal left in the proposer's mempool view: propose() only adds
+        proposer_chain.propose(&eve_nonce_tx, extended_commit(decided.height + 1, None), 5, 1_000_000).await.ok()
+    } else {
+        None
+    };
     Material {
         decided,
         other,
         invalid,
         partial,
+        followup,
     }
 }
 
@@ -441,6 +460,7 @@ async fn run_path(kind: &BlockKind, material: &Material, path: &[Pre]) -> PathOu
         other,
         invalid,
         partial,
+        followup: followup_block,
     } = material.clone();
     // the node under test
     let mut node = Chain::universe().await;
@@ -480,6 +500,25 @@ async fn run_path(kind: &BlockKind, material: &Material, path: &[Pre]) -> PathOu
             Err(e) => Err(format!("commit failed: {e:#}")),
             Ok(_) => {
                 let committed = dump_state(&storage.latest_snapshot()).await;
+                // a second block on top: anything left over from the first height's calls (cached
+                // execution results, proposal fingerprints) would show here
+                let followup = match &followup_block {
+                    None => Err("no follow-up block".to_string()),
+                    Some(f) => {
+                        let run = async {
+                            let resp = node.fixture.app.finalize_block(f.finalize_request(), storage.clone()).await.map_err(|e| format!("{e:#}"))?;
+                            node.fixture.app.commit(storage.clone()).await.map_err(|e| format!("commit: {e:#}"))?;
+                            Ok::<_, String>((
+                                report::hex(resp.app_hash.as_bytes()),
+                                resp.tx_results.iter().map(|r| r.code.value()).collect::<Vec<u32>>(),
+                            ))
+                        };
+                        match futures::FutureExt::catch_unwind(std::panic::AssertUnwindSafe(run)).await {
+                            Ok(r) => r,
+                            Err(e) => Err(format!("PANIC: {}", report::panic_text(&e))),
+                        }
+                    }
+                };
                 Ok(FinalizeSummary {
                     app_hash: report::hex(resp.app_hash.as_bytes()),
                     tx_results: resp
@@ -491,6 +530,7 @@ async fn run_path(kind: &BlockKind, material: &Material, path: &[Pre]) -> PathOu
                     consensus_param_updates: format!("{:?}", resp.consensus_param_updates),
                     committed,
                     n_events: resp.events.len(),
+                    followup,
                 })
             }
         },
@@ -648,6 +688,13 @@ fn compare(base: &PathOutcome, got: &PathOutcome) -> Option<(String, String, Str
                     "same-result".into(),
                     "validator / consensus-parameter updates depend on the call path".into(),
                     format!("{:?} vs {:?}", b.validator_updates, g.validator_updates),
+                ));
+            }
+            if b.followup != g.followup {
+                return Some((
+                    "same-result".into(),
+                    "the next height's result depends on the call path of this height".into(),
+                    format!("next block on the sync path {:?} vs {:?}", b.followup, g.followup),
                 ));
             }
             if b.committed != g.committed {
